@@ -464,7 +464,7 @@ def gen_mv(rng, big):
         ni = rng.choice([1, 1, 2, 3, 4])
         names = rng.sample(NAMES, ni)
         if rng.random() < 0.35:
-            names = list({rand_small_name(rng) for _ in range(ni * 3)})[:ni]
+            names = sorted({rand_small_name(rng) for _ in range(ni * 3)})[:ni]      # sorted: set order depends on PYTHONHASHSEED
             ni = len(names)
         ops = [f'm {hx(meter[0])} {hx(meter[1])} {hx(meter[2])} {en}']
         instrs = []
